@@ -354,9 +354,49 @@ pub fn gen_phys_graph(t: &mut Tape, max_e: usize, max_l: usize, min_omega: f64, 
     Some(g)
 }
 
+/// accepted graph with 9..11 loops on 1..3 vertices (bananas, flowers and mixtures; 9..13 edges): L matrices beyond
+/// dimension 8. Part of the separately budgeted class of large graphs.
+pub fn gen_phys_graph_manyloop(t: &mut Tape, dmax: usize) -> Option<G> {
+    let nv = t.range(1, 3);
+    let nl = t.range(9, 11);
+    let ne = nl + nv - 1;
+    let mut edges: Vec<(u8, u8)> = vec![];
+    for v in 1..nv {
+        let u = t.below(v);
+        edges.push(if t.bool() { (u as u8, v as u8) } else { (v as u8, u as u8) });
+    }
+    let selfloops = t.chance(0.3);
+    while edges.len() < ne {
+        let a = t.below(nv);
+        let b = if nv == 1 || (selfloops && t.chance(0.3)) { a } else { (a + 1 + t.below(nv - 1)) % nv };
+        edges.push((a as u8, b as u8));
+    }
+    if t.bool() {
+        shuffle(t, &mut edges);
+    }
+    let all_massive = t.chance(0.7) || nv == 1;
+    let mut massive: Vec<bool> = (0..ne).map(|_| all_massive || t.bool()).collect();
+    for e in 0..ne {
+        if edges[e].0 == edges[e].1 {
+            massive[e] = true;
+        }
+    }
+    let externals: Vec<u8> = if nv >= 2 && (!massive.iter().all(|&m| m) || t.bool()) { (0..nv as u8).collect() } else { vec![] };
+    let d = t.range(1, dmax.min(4));
+    let mut g = G { edges, massive, weights: vec![1.0; ne], externals, d };
+    let dyadic = !t.chance(0.3);
+    if !fit_weights(t, &mut g, dyadic, 0.15, true, 8) {
+        return None;
+    }
+    Some(g)
+}
+
 /// accepted physical graph with 13 or 14 edges (more than 12, not a multiple of 12) and 1..3 loops: long chains and
 /// trees with a few chords. Rare class of the sampling properties (the table has 2^13 / 2^14 entries).
 pub fn gen_phys_graph_large(t: &mut Tape, dmax: usize) -> Option<G> {
+    if t.chance(0.35) {
+        return gen_phys_graph_manyloop(t, dmax);
+    }
     let ne = *t.pick(&[13usize, 13, 14]);
     let nl = t.range(1, 3);
     let nv = ne - nl + 1;
@@ -920,7 +960,7 @@ pub fn gen_phys_large(t: &mut Tape, max_ops: usize, profile: &PointProfile) -> O
     let g = gen_phys_graph_large(t, 6)?;
     let kin = gen_kin(t, &g, max_ops);
     let (x, mut classes) = gen_point(t, &g, profile);
-    classes.push("graph:13-14-edges");
+    classes.push(if g.num_loops() >= 9 { "graph:9-11-loops" } else { "graph:13-14-edges" });
     Some(Phys { g, kin, x, classes: classes.into_iter().map(String::from).collect() })
 }
 
